@@ -299,8 +299,13 @@ class OpaqueSignature(Signature):
     def __sig__(self):
         return self.data
 
+    def __copy__(self):
+        sig = self.__class__()
+        sig.data = bytearray(self.data)
+        return sig
+
     def parse(self, packet):
-        self.data = packet
+        self.data = bytearray(packet)
 
     def from_signer(self, sig):
         self.data = bytearray(sig)
